@@ -214,6 +214,33 @@ def run_unit(unit, rng, ctx):
             order_s = [str(x_) for x_ in rng.permutation(['displacements', 'positions', 'cumulative', 'distances'])] + ['positions']
             examine(part, Xs, Us, m, ctx, what + f' [sub-trajectory {origin}]', order_s)
             ctx.count('sub_trajectories_not_starting_at_frame_0')
+    # a copy obtained through pickle / deepcopy / the cache file of an object that is currently in either storage
+    # mode is the same periodic trajectory
+    if unit['i'] % 4 == 3:
+        import copy
+        import os
+        import pickle
+        import tempfile
+
+        src = build(rng, m, U, mode, names)
+        if rng.integers(2):
+            _ = src.cumulative_displacements if rng.integers(2) else src.distances_from_base_position()
+        how = str(rng.choice(['pickle', 'deepcopy', 'cache']))
+        if how == 'pickle':
+            cp = pickle.loads(pickle.dumps(src))
+        elif how == 'deepcopy':
+            cp = copy.deepcopy(src)
+        else:
+            fd, pth = tempfile.mkstemp(suffix='.cache')
+            os.close(fd)
+            try:
+                src.to_cache(pth)
+                cp = type(src).from_cache(pth)
+            finally:
+                os.unlink(pth)
+        examine(cp, X1, U, m, ctx, what + f' [{how} copy of an object in {"displacement" if src.coords_are_displacement else "position"} storage]', [str(x_) for x_ in rng.permutation(['positions', 'displacements', 'cumulative', 'distances'])])
+        ctx.count(f'serialised_copies:{how}')
+        ctx.count('serialised_copies_of_objects_in_displacement_storage', bool(src.coords_are_displacement))
     # a trajectory assembled from chunks with extend(); the second chunk may start with a configuration that
     # repeats the last one of the first chunk (restart files, a static step): every input frame stays a frame
     if T >= 3 and unit['i'] % 5 == 1:
